@@ -272,6 +272,49 @@ func (p *Prog) SummaryOf(f *Func) *Summary {
 	if s.SuccessFacts == nil {
 		s.SuccessFacts = FactSet{}
 	}
+	// what the committed paths establish beyond their common facts: the disjunction over the paths of their own
+	// facts (a guard spread over nested ifs or split short-circuit operands is still a guard of the function)
+	var okPaths []FactSet
+	for _, pa := range paths {
+		if pa.OK() {
+			okPaths = append(okPaths, pa.AllFacts())
+		}
+	}
+	if n := len(okPaths); n >= 2 && n <= 6 {
+		var disj *Term
+		trivial := false
+		for _, af := range okPaths {
+			var conj *Term
+			cnt := 0
+			for _, k := range af.Sorted() {
+				if s.SuccessFacts.Has(af[k]) {
+					continue
+				}
+				cnt++
+				ft := af[k].T
+				if af[k].Neg {
+					ft = mk("!", ft)
+				}
+				if conj == nil {
+					conj = ft
+				} else {
+					conj = mk("&&", conj, ft)
+				}
+			}
+			if cnt == 0 || cnt > 4 {
+				trivial = true
+				break
+			}
+			if disj == nil {
+				disj = conj
+			} else {
+				disj = mk("||", disj, conj)
+			}
+		}
+		if !trivial && disj != nil {
+			s.SuccessFacts.Add(normFact(Fact{T: disj}))
+		}
+	}
 	return s
 }
 
